@@ -228,7 +228,7 @@ Ltac unfold_all :=
   unfold validate_stDAG, validate_stDiGraph, validate_NodeExpandedDiGraph, validate_kFlowDecomp, validate_MinFlowDecomp,
     validate_kMinPathError, validate_kLeastAbsErrors, validate_kErrDAG, validate_kPathCover, validate_MinPathCover,
     validate_MinErrorFlow, validate_kFlowDecompCycles, validate_kLeastAbsErrorsCycles, validate_kMinPathErrorCycles,
-    validate_kErrCycles, validate_kPathCoverCycles, validate_MinPathCoverCycles, validate_MinFlowDecompCycles,
+    validate_kPathCoverCycles, validate_MinPathCoverCycles, validate_MinFlowDecompCycles,
     mfd_solve, kfd_core, kfdc_core, front_cover, front, front_node, front_edge, front_cover, v_stdag, v_stdigraph, v_ssg_common, v_nodeexp,
     v_maxflow, v_pathmodel, v_walkmodel, v_walkmodel_k, k_bad, st_of, en_of, no_src, no_snk, VE in *.
 Ltac unfold_dom :=
@@ -271,7 +271,7 @@ Proof.
   destruct (has_source i), (has_sink i), (is_nil (starts i)), (is_nil (ends i)); bsimp; try discriminate; reflexivity.
 Qed.
 Definition ex_graph : input :=
-  {| nodes_str := [true; true]; n_edges := 2; acyclic := false; has_source := true; has_sink := true;
+  {| nodes_str := [true; true]; n_edges := 2; acyclic := false; has_selfloop := false; ign_pct := PNone; trust_pct := PNone; has_source := true; has_sink := true;
      origin := OEdge; wtype := TFloat;
      elems := [ {| e_w := WPos; e_ign := false |}; {| e_w := WPos; e_ign := false |} ];
      conserving := true; k := KInt 2; cons := []; cov := 1%Q; cov_len := None; has_len_attr := false; starts := []; ends := []; ign := []; search_enters := true |}.
@@ -424,40 +424,45 @@ Ltac complete_script i :=
 
 (* modifiers used for witnesses and examples *)
 Definition set_cons (i : input) (cs : list constr) (c : Q) : input :=
-  {| nodes_str := nodes_str i; n_edges := n_edges i; acyclic := acyclic i; has_source := has_source i; has_sink := has_sink i;
+  {| nodes_str := nodes_str i; n_edges := n_edges i; acyclic := acyclic i; has_selfloop := has_selfloop i; ign_pct := ign_pct i; trust_pct := trust_pct i; has_source := has_source i; has_sink := has_sink i;
      origin := origin i; wtype := wtype i; elems := elems i;
      conserving := conserving i; k := k i; cons := cs; cov := c; cov_len := cov_len i; has_len_attr := has_len_attr i; starts := starts i; ends := ends i; ign := ign i;
      search_enters := search_enters i |}.
 Definition set_k (i : input) (kk : ktag) : input :=
-  {| nodes_str := nodes_str i; n_edges := n_edges i; acyclic := acyclic i; has_source := has_source i; has_sink := has_sink i;
+  {| nodes_str := nodes_str i; n_edges := n_edges i; acyclic := acyclic i; has_selfloop := has_selfloop i; ign_pct := ign_pct i; trust_pct := trust_pct i; has_source := has_source i; has_sink := has_sink i;
      origin := origin i; wtype := wtype i; elems := elems i;
      conserving := conserving i; k := kk; cons := cons i; cov := cov i; cov_len := cov_len i; has_len_attr := has_len_attr i; starts := starts i; ends := ends i; ign := ign i;
      search_enters := search_enters i |}.
 Definition set_origin (i : input) (o : origin_tag) (w : wtype_tag) : input :=
-  {| nodes_str := nodes_str i; n_edges := n_edges i; acyclic := acyclic i; has_source := has_source i; has_sink := has_sink i;
+  {| nodes_str := nodes_str i; n_edges := n_edges i; acyclic := acyclic i; has_selfloop := has_selfloop i; ign_pct := ign_pct i; trust_pct := trust_pct i; has_source := has_source i; has_sink := has_sink i;
      origin := o; wtype := w; elems := elems i;
      conserving := conserving i; k := k i; cons := cons i; cov := cov i; cov_len := cov_len i; has_len_attr := has_len_attr i; starts := starts i; ends := ends i; ign := ign i;
      search_enters := search_enters i |}.
 Definition set_flags (i : input) (acy cons_ se : bool) (ns : list bool) : input :=
-  {| nodes_str := ns; n_edges := n_edges i; acyclic := acy; has_source := has_source i; has_sink := has_sink i;
+  {| nodes_str := ns; n_edges := n_edges i; acyclic := acy; has_selfloop := has_selfloop i; ign_pct := ign_pct i; trust_pct := trust_pct i; has_source := has_source i; has_sink := has_sink i;
      origin := origin i; wtype := wtype i; elems := elems i;
      conserving := cons_; k := k i; cons := cons i; cov := cov i; cov_len := cov_len i; has_len_attr := has_len_attr i; starts := starts i; ends := ends i; ign := ign i;
      search_enters := se |}.
 Definition set_elems (i : input) (es : list elem) (se : bool) : input :=
-  {| nodes_str := nodes_str i; n_edges := n_edges i; acyclic := acyclic i; has_source := has_source i; has_sink := has_sink i;
+  {| nodes_str := nodes_str i; n_edges := n_edges i; acyclic := acyclic i; has_selfloop := has_selfloop i; ign_pct := ign_pct i; trust_pct := trust_pct i; has_source := has_source i; has_sink := has_sink i;
      origin := origin i; wtype := wtype i; elems := es;
      conserving := conserving i; k := k i; cons := cons i; cov := cov i; cov_len := cov_len i; has_len_attr := has_len_attr i; starts := starts i; ends := ends i; ign := ign i;
      search_enters := se |}.
 Definition set_starts (i : input) (hs : bool) (sts : list bool) : input :=
-  {| nodes_str := nodes_str i; n_edges := n_edges i; acyclic := acyclic i; has_source := hs; has_sink := has_sink i;
+  {| nodes_str := nodes_str i; n_edges := n_edges i; acyclic := acyclic i; has_selfloop := has_selfloop i; ign_pct := ign_pct i; trust_pct := trust_pct i; has_source := hs; has_sink := has_sink i;
      origin := origin i; wtype := wtype i; elems := elems i;
      conserving := conserving i; k := k i; cons := cons i; cov := cov i; cov_len := cov_len i; has_len_attr := has_len_attr i; starts := sts; ends := ends i; ign := ign i;
      search_enters := search_enters i |}.
 Definition set_covlen (i : input) (l : option Q) (a : bool) : input :=
-  {| nodes_str := nodes_str i; n_edges := n_edges i; acyclic := acyclic i; has_source := has_source i; has_sink := has_sink i;
+  {| nodes_str := nodes_str i; n_edges := n_edges i; acyclic := acyclic i; has_selfloop := has_selfloop i; ign_pct := ign_pct i; trust_pct := trust_pct i; has_source := has_source i; has_sink := has_sink i;
      origin := origin i; wtype := wtype i; elems := elems i;
      conserving := conserving i; k := k i; cons := cons i; cov := cov i; cov_len := l; has_len_attr := a; starts := starts i;
      ends := ends i; ign := ign i; search_enters := search_enters i |}.
+Definition set_loop_pct (i : input) (sl : bool) (ip tp : pct) : input :=
+  {| nodes_str := nodes_str i; n_edges := n_edges i; acyclic := acyclic i; has_selfloop := sl; ign_pct := ip; trust_pct := tp;
+     has_source := has_source i; has_sink := has_sink i; origin := origin i; wtype := wtype i; elems := elems i;
+     conserving := conserving i; k := k i; cons := cons i; cov := cov i; cov_len := cov_len i; has_len_attr := has_len_attr i;
+     starts := starts i; ends := ends i; ign := ign i; search_enters := search_enters i |}.
 Definition ex_dag : input := set_flags ex_graph true true true [true; true].
 Definition neg_elem := {| e_w := WNeg; e_ign := false |}.
 Definition ign_elem := {| e_w := WPos; e_ign := true |}.
